@@ -10,6 +10,7 @@ import (
 	"io/ioutil"
 	"math/rand"
 	"net/http"
+	"os"
 	"strings"
 	"sync"
 	"time"
@@ -659,6 +660,14 @@ func ExecSeq(scs []*Scenario) []*Transcript {
 	}
 	rand.Seed(sc0.RandSeed)
 	var coordLog logrus.FieldLogger = quietLog
+	if os.Getenv("VERIF_CYC_LOG") != "" {
+		// development aid: the coordinator's own log of a replayed scenario
+		if f, err := os.OpenFile(os.Getenv("VERIF_CYC_LOG"), os.O_APPEND|os.O_CREATE|os.O_WRONLY, 0644); err == nil {
+			l := logrus.New()
+			l.SetOutput(f)
+			coordLog = l
+		}
+	}
 	if sc0.Opt.ApplyPauseMS > 0 {
 		l := logrus.New()
 		l.SetOutput(ioutil.Discard)
